@@ -1198,7 +1198,7 @@ class Sequence:
         # -ampl/2+off.
         #
         def rescaler(val, ampl, off):
-            return val / ampl * 2 - off
+            return (val - off) / ampl * 2
 
         for pos in range(1, seqlen + 1):
             element = elements[pos - 1]
